@@ -80,16 +80,16 @@ def run(chk):
         return t
     cores = {}
     for t, _, _ in cases:
-        cores.setdefault(typecases.rust_text(core(t)), core(t))
+        cores.setdefault(typecases.tree_key(core(t)), core(t))
     tw_events, tw_meta = typecases.run_trees(common.Check(chk.pid, chk.tier, chk.seed), [(t, None, False) for t in cores.values()], configs=configs)
     plain = {}
     for e, m in zip(tw_events, tw_meta):
         if e is not None:
-            plain[(e["lang"], m[1], e["pos"], typecases.rust_text(e["rust"]))] = e["ty"]
+            plain[(e["lang"], m[1], e["pos"], typecases.tree_key(e["rust"]))] = e["ty"]
     for i, e in enumerate(events):
         if e is None:
             continue
-        key = (e["lang"], meta[i][1], e["pos"], typecases.rust_text(core(e["rust"])))
+        key = (e["lang"], meta[i][1], e["pos"], typecases.tree_key(core(e["rust"])))
         if key not in plain:
             events[i] = None          # no twin observation for this position (reported by the twin's own batch if it matters)
             meta[i] = meta[i][:6] + ("twin-missing",) + meta[i][7:]
